@@ -1,4 +1,5 @@
 import string
+import unicodedata
 from abc import ABC, abstractmethod
 from keyword import iskeyword
 
@@ -13,6 +14,8 @@ class BuiltinNameSanitizer(NameSanitizer):
     _TRANSLATE_MAP = str.maketrans({".": "_", "[": "_"})
 
     def sanitize(self, name: str) -> str:
+        # the parser applies NFKC normalization to identifiers, the result must be the name that will be really defined
+        name = unicodedata.normalize("NFKC", name)
         if name == "":
             return ""
 
